@@ -20,6 +20,7 @@ structure Inv3 (st : St) : Prop where
   /-- the handler between `timer.take()` and `co.take()` works for an entry whose deadline has passed -/
   t5 : ∀ w s t, st.wpc w = .fTake s t → st.deadline t ≤ st.now ∧ t < st.nextTm
   t5f : ∀ w s t, st.wpc w = .fOr s t → st.deadline t ≤ st.now ∧ t < st.nextTm
+  t5c : ∀ w s t, st.wpc w = .fChk s t → st.deadline t ≤ st.now ∧ t < st.nextTm
 
 theorem inv3_init (co : Co → Bool) : Inv3 (init co) := by
   constructor <;> simp [init, initCfg]
@@ -45,7 +46,7 @@ macro "crunch3" : tactic => `(tactic| (
 set_option maxHeartbeats 8000000 in
 theorem inv3_ustep (st st' : St) (c : Co) (pc : UPc) (e : Env) (h : Inv3 st)
     (hs : ustep st c pc e = some st') : Inv3 st' := by
-  obtain ⟨t1, t2, t3, t4, d1, d2, t5, t5f⟩ := h
+  obtain ⟨t1, t2, t3, t4, d1, d2, t5, t5f, t5c⟩ := h
   cases pc with
   | idle => cases e <;> crunch3
   | done o => cases e <;> crunch3
@@ -62,10 +63,11 @@ theorem inv3_ustep (st st' : St) (c : Co) (pc : UPc) (e : Env) (h : Inv3 st)
 set_option maxHeartbeats 8000000 in
 theorem inv3_kstep (st st' : St) (k : Kt) (pc : KPc) (e : Env) (h : Inv3 st)
     (hs : kstep st k pc e = some st') : Inv3 st' := by
-  obtain ⟨t1, t2, t3, t4, d1, d2, t5, t5f⟩ := h
+  obtain ⟨t1, t2, t3, t4, d1, d2, t5, t5f, t5c⟩ := h
   cases pc with
   | off => simp [kstep] at hs
   | start s c r => have := d1 c; crunch3
+  | arm s c r => have := d1 c; crunch3
   | set s c r t => crunch3
   | store s c r => crunch3
   | load s c r => crunch3
@@ -76,6 +78,7 @@ theorem inv3_kstep (st st' : St) (k : Kt) (pc : KPc) (e : Env) (h : Inv3 st)
   | xor c => crunch3
   | xio c => crunch3
   | xtake s => crunch3
+  | xDis s c => crunch3
   | reg0 s c r => crunch3
   | chk2 s c => crunch3
   | own s => crunch3
@@ -84,21 +87,24 @@ theorem inv3_kstep (st st' : St) (k : Kt) (pc : KPc) (e : Env) (h : Inv3 st)
 set_option maxHeartbeats 8000000 in
 theorem inv3_wstep (st st' : St) (w : Wk) (pc : WPc) (e : Env) (h : Inv3 st) (hpc : st.wpc w = pc)
     (hs : wstep st w pc e = some st') : Inv3 st' := by
-  obtain ⟨t1, t2, t3, t4, d1, d2, t5, t5f⟩ := h
+  obtain ⟨t1, t2, t3, t4, d1, d2, t5, t5f, t5c⟩ := h
   have ht5 := t5 w
   have ht5f := t5f w
+  have ht5c := t5c w
   cases pc with
   | idle => cases e <;> crunch3
   | sTake s => crunch3
   | sDis s c => crunch3
+  | fChk s t => have := ht5c s t hpc; crunch3
   | fOr s t => have := ht5f s t hpc; crunch3
   | fTake s t => have := ht5 s t hpc; crunch3
   | xio c => crunch3
   | xtake s => crunch3
+  | xDis s c => crunch3
 
 theorem inv3_estep (st st' : St) (e : Env) (h : Inv3 st) (hs : estep st e = some st') : Inv3 st' := by
-  obtain ⟨t1, t2, t3, t4, d1, d2, t5, t5f⟩ := h
-  cases e <;> simp only [estep] at hs <;> first | contradiction | (simp only [Option.some.injEq] at hs; subst hs; constructor <;> (try simp only []) <;> grind)
+  obtain ⟨t1, t2, t3, t4, d1, d2, t5, t5f, t5c⟩ := h
+  cases e <;> simp only [estep] at hs <;> (repeat' (split at hs)) <;> first | contradiction | (simp only [Option.some.injEq] at hs; subst hs; constructor <;> (try simp only []) <;> grind)
 
 theorem inv3_step (st st' : St) (a : Actor) (e : Env) (h : Inv3 st) (hs : step st a e = some st') : Inv3 st' := by
   cases a with
@@ -166,6 +172,7 @@ theorem dead_step (st st' : St) (a : Actor) (e : Env) (t : Tm) (h : Inv3 st) (hd
     cases pc with
     | off => simp [kstep] at hs
     | start s c r => crunchD
+    | arm s c r => crunchD
     | set s c r t => crunchD
     | store s c r => crunchD
     | load s c r => crunchD
@@ -176,6 +183,7 @@ theorem dead_step (st st' : St) (a : Actor) (e : Env) (t : Tm) (h : Inv3 st) (hd
     | xor c => crunchD
     | xio c => crunchD
     | xtake s => crunchD
+    | xDis s c => crunchD
     | reg0 s c r => crunchD
     | chk2 s c => crunchD
     | own s => crunchD
@@ -187,10 +195,12 @@ theorem dead_step (st st' : St) (a : Actor) (e : Env) (t : Tm) (h : Inv3 st) (hd
     | idle => cases e <;> crunchD
     | sTake s => crunchD
     | sDis s c => crunchD
+    | fChk s t => crunchD
     | fOr s t => crunchD
     | fTake s t => crunchD
     | xio c => crunchD
     | xtake s => crunchD
+    | xDis s c => crunchD
   | env =>
     simp only [step] at hs
     cases e <;> crunchD
